@@ -14,12 +14,14 @@ Proof. intros p r m i o H Hi Ho p'. apply build_checked_inv in H. destruct H as 
   exact (functions_one_per_key p r m i o Hi Ho Hv). Qed.
 Print Assumptions C14_one_definition_per_key.
 
-(* to_model keeps one proto per key, and every function met in the build is represented by a definition with identical rendering *)
+(* to_model keeps one proto per key, and every function met in the build is represented by a definition with identical rendering
+   AND identical attribute values inside the body (two bodies that differ only in a Constant's tensor are different) *)
 Theorem C14_definitions_merged_only_if_identical :
   forall b m, to_model b = inl m ->
   NoDup (map fkey (mfunctions m)) /\
   forall f, In f (b_funs b) -> exists d, In d (mfunctions m) /\ fkey d = fkey (function_proto (max_opset_policy (b_req b)) f) /\
-                                   show_function d = show_function (function_proto (max_opset_policy (b_req b)) f).
+                                   show_function d = show_function (function_proto (max_opset_policy (b_req b)) f) /\
+                                   f_vals d = f_vals (function_proto (max_opset_policy (b_req b)) f).
 Proof. exact to_model_functions. Qed.
 Print Assumptions C14_definitions_merged_only_if_identical.
 
@@ -28,7 +30,7 @@ Theorem C14_differing_bodies_rejected :
   forall b f1 f2, In f1 (b_funs b) -> In f2 (b_funs b) ->
   let i := max_opset_policy (b_req b) in
   fkey (function_proto i f1) = fkey (function_proto i f2) ->
-  show_function (function_proto i f1) <> show_function (function_proto i f2) ->
+  (show_function (function_proto i f1) <> show_function (function_proto i f2) \/ fd_vals f1 <> fd_vals f2) ->
   forall m, to_model b <> inl m.
 Proof. exact differing_bodies_rejected. Qed.
 Print Assumptions C14_differing_bodies_rejected.
